@@ -223,6 +223,23 @@ def rule_sizes(chk: Check, model, rid: str):
         ok = ok and not others
     chk.add(rid, "minimum sizes aggregate over every reader of a producer", bool(ok), "get_buffer_sizes must append each (consumer, input) requirement s.max() + 1 to the "
             "producer's list (the allocated size is the max over all of them); a replaced entry forgets the other consumers", chk.loc(f_bs))
+    # which schedule entries count for the ring size: exactly the slots that run (entries of masked slots are ignored); window entries
+    # without a message (seq < 0) do count: they address the last ring slot, which must still hold the default output
+    f_mt = model.func("base.Timings.get_masked_timings")
+    chk.used(f_mt.qualname)
+    mask_writes = [n for n in ast.walk(f_mt.node) if (isinstance(n, (ast.Assign, ast.AugAssign, ast.AnnAssign)) and any(
+        isinstance(t, ast.Attribute) and t.attr == "mask" or (isinstance(t, ast.Subscript) and isinstance(t.value, ast.Attribute) and t.value.attr == "mask")
+        for t in (n.targets if isinstance(n, ast.Assign) else [n.target])))]
+    # reference: one write, `arr.mask[:, :, :, j] = True` in the helper that hides the *other generations*
+    okm = len(mask_writes) == 1 and isinstance(mask_writes[0], ast.Assign) and isinstance(mask_writes[0].value, ast.Constant) and mask_writes[0].value.value is True \
+        and isinstance(mask_writes[0].targets[0], ast.Subscript)
+    makers = [n for n in ast.walk(f_mt.node) if isinstance(n, ast.Call) and isinstance(n.func, ast.Attribute) and n.func.attr in ("masked_array", "masked_where", "masked_less", "masked_equal", "masked_invalid")]
+    parts = [n for n in ast.walk(f_mt.node) if isinstance(n, ast.Call) and ast.unparse(n.func).endswith("partial") and n.args and isinstance(n.args[0], ast.Name) and len(n.args) == 2
+             and isinstance(n.args[1], ast.UnaryOp) and isinstance(n.args[1].op, ast.Invert) and isinstance(n.args[1].operand, ast.Attribute) and n.args[1].operand.attr == "run"]
+    okm = okm and len(makers) == 1 and makers[0].func.attr == "masked_array" and len(parts) == 1
+    chk.add(rid, "only slots that do not run are masked out of the sizing", bool(okm), f"get_masked_timings has {len(mask_writes)} mask write(s), {len(makers)} masked-array construction(s), "
+            f"{len(parts)} `~run` mask(s): entries may be masked only because their slot does not run (or belongs to another generation); masking e.g. seq < 0 entries makes the ring too "
+            "small for the default-output slot", chk.loc(f_mt, mask_writes[1] if len(mask_writes) > 1 else None))
     f_init = model.func("graph.Graph.__init__")
     chk.used(f_init.qualname)
     ev = SymEval(model)
